@@ -3,7 +3,12 @@ import Driver.Common
 /-
 Driver for C19.  An error recipe is `base;wrapper;…` (innermost first), text fields in hex:
   base:    C.<ClassName> | O.<hexmsg> | S.<CodeName>.<hexmsg>
+           | P.<ClassName>.<hexmsg>                       (OS error value of that class, `.osErr`)
   wrapper: W.<hexpre>.<hexpost> | E.<hexjson>
+           | W2.<hexpre>.<hexmid>.<hexpost>.<L|R>.<hexmsg>  (two %w: the chain so far is the Left / Right
+                                                           child, the other child is errors.New(msg))
+           | J.<L|R>.<hexmsg>                             (errors.Join = W2 with pre "", mid "\n", post "")
+("-" = empty text)
 ops: is <recipe> <Class> | code <recipe> | ext <recipe> | extraw <recipe> | idem <recipe> | from <CodeName> | markers <recipe>
 -/
 namespace DrvErrs
@@ -38,12 +43,23 @@ def parseBase (s : String) : Option Err :=
   | ["C", n] => (clsOf n).map .cls
   | ["O", m] => (unhex m).map .other
   | ["S", c, m] => do let c ← codeOf c; let m ← unhex m; pure (.status c [.txt m])
+  | ["P", n, m] => do let c ← clsOf n; let m ← unhex m; pure (.osErr c m)
   | _ => none
+
+/-- two-`%w` wrapping with the chain so far on side `L`/`R` and `errors.New(m)` on the other -/
+def wrap2Side (pre mid post : String) (e : Err) (side : String) (m : String) : Option Err :=
+  if side = "L" then some (.wrap2 pre mid post e (.other m))
+  else if side = "R" then some (.wrap2 pre mid post (.other m) e)
+  else none
 
 def applyWrapper (e : Err) (s : String) : Option Err :=
   match s.splitOn "." with
   | ["W", a, b] => do let a ← unhex a; let b ← unhex b; pure (.wrap a b e)
   | ["E", j] => do let j ← unhex j; pure (.embed j e)
+  | ["W2", a, b, c, side, m] => do
+    let a ← unhex a; let b ← unhex b; let c ← unhex c; let m ← unhex m
+    wrap2Side a b c e side m
+  | ["J", side, m] => do let m ← unhex m; wrap2Side "" "\n" "" e side m
   | _ => none
 
 def parseRecipe (s : String) : Option Err :=
